@@ -679,6 +679,7 @@ class Proc:
         self.info = {}
         self.birth = 0.0
         self.death = None
+        self.death_step = None
         self.used_fds = set()
 
     def task_done(self, t):
@@ -831,6 +832,7 @@ class Kernel:
         proc.alive = False
         proc.status = status
         proc.death = self.s.now
+        proc.death_step = self.s.steps
         for fd in list(proc.fds):
             of = proc.fds.pop(fd)
             of.decref()
